@@ -145,7 +145,19 @@ const ENUMS: &[(&str, &[&str])] = &[
         "IslamicTabular", "IslamicUmmAlQura", "Iso", "Japanese", "JapaneseExtended", "Persian", "Roc"]),
 ];
 
+// local date-times inside (or next to) DST gaps and overlaps of named zones, where the disambiguation option decides
+const EDGES: [(&str, i64, i64, i64, i64, i64); 12] = [
+    ("America/New_York", 2021, 3, 14, 2, 30), ("America/New_York", 2021, 11, 7, 1, 30), ("Europe/London", 2021, 3, 28, 1, 30), ("Europe/London", 2021, 10, 31, 1, 30),
+    ("Australia/Lord_Howe", 2021, 10, 3, 2, 15), ("Australia/Lord_Howe", 2021, 4, 4, 1, 45), ("America/Sao_Paulo", 2018, 11, 4, 0, 30), ("America/Sao_Paulo", 2018, 2, 17, 23, 30),
+    ("America/St_Johns", 2021, 3, 14, 2, 30), ("America/St_Johns", 2021, 11, 7, 1, 30), ("Africa/Cairo", 2023, 4, 28, 0, 30), ("Africa/Cairo", 2023, 10, 26, 23, 30),
+];
+
 fn zsrc(r: &mut Rng) -> String {
+    if r.chance(1, 4) {
+        let e = r.pick(&EDGES);
+        let off = match r.range(0, 3) { 0 => String::new(), 1 => off_str(r.range(-5, 3) * 3600), 2 => off_str(r.range(-4, 2) * 3600 - 1800), _ => "Z".into() };
+        return format!("{:04}-{:02}-{:02}T{:02}:{:02}:{:02}{}[{}]", e.1, e.2, e.3, e.4, e.5, r.range(0, 59), off, e.0);
+    }
     if r.chance(1, 10) { return (*r.pick(&["garbage", "2021-03-09T13:14:15", "2021-03-09T13:14:15+01:00", ""])).to_string(); }
     let n = r.range(-25_000, 24_000);
     let (y, m, d) = civil(n);
@@ -179,6 +191,8 @@ fn args_for(r: &mut Rng, ty: &str, sig: &str) -> Value {
         "recv+otherdur" => { let du = r.chance(1, 2); a["other"] = g_dur(r, du, true); }
         "recv+unit+rel" => { a["unit"] = json!(*r.pick(&UNITS[1..])); g_rel(r, &mut a); }
         "recv+tz?+tsro" => { if r.chance(3, 4) { let named_ok = recv["day"].as_i64().unwrap() < 24_000 && recv["day"].as_i64().unwrap() > -25_000; a["tz"] = json!(if named_ok { tz_any(r) } else { off_str(r.range(-1439, 1439) * 60) }); } a["opts"] = g_tsro(r); }
+        "recv+tz+dis" if r.chance(1, 3) => { let e = *r.pick(&EDGES); a["recv"] = merge(&json!({"y": e.1, "m": e.2, "d": e.3}), &g_time(r)); a["recv"]["h"] = json!(e.4); a["recv"]["mi"] = json!(e.5);
+            a["tz"] = json!(e.0); a["dis"] = json!(*r.pick(&["compatible", "earlier", "later", "reject"])); }
         "recv+tz+dis" => { let n = days_from_civil(recv["y"].as_i64().unwrap(), recv["m"].as_i64().unwrap().clamp(1, 12), recv["d"].as_i64().unwrap().clamp(1, 28)); let named_ok = recv.get("cal").is_some() || (n < 24_000 && n > -25_000);
             a["tz"] = json!(if named_ok && recv.get("cal").is_none() { tz_any(r) } else { off_str(r.range(-1439, 1439) * 60) }); a["dis"] = json!(*r.pick(&["compatible", "earlier", "later", "reject"])); }
         "relsrc" => { a["src"] = json!(if r.chance(1, 3) { let (y, m, d) = civil(r.range(-25_000, 24_000)); format!("{:04}-{:02}-{:02}", y, m, d) } else { zsrc(r) }); }
